@@ -838,6 +838,28 @@ func (fx *FnCtx) logCall(st *State, name string, args []Val, res []Val) {
 		c := fx.ghostCell(st, fmt.Sprintf("res:%s:%d", name, i), r.sh, r)
 		st.cells[c] = r
 	}
+	// the same call in the global event sequence (events(), evis, evarg)
+	evn := fx.ghostCell(st, "evn", intSh, mkInt(intSh, "0"))
+	k := st.cells[evn].t()
+	ksh := &Shape{kind: KArr, elem: intSh, n: -1, key: "[ev]kind"}
+	kc := fx.ghostCell(st, "evkind", ksh, freshVal(fx.decls, ksh, "evkind0"))
+	kv := st.cells[kc].arraySet(k, mkInt(intSh, num(int64(fx.eng.eventID(name)))))
+	kv.ts[0] = fx.define("evkind", arrSort(sInt), kv.ts[0])
+	st.cells[kc] = kv
+	for i, a := range args {
+		if a.ptr != nil || len(a.fns) > 0 {
+			continue
+		}
+		ash := &Shape{kind: KArr, elem: a.sh, n: -1, key: "[ev]" + a.sh.key}
+		c := fx.ghostCell(st, fmt.Sprintf("evarg:%s:%d", name, i), ash, freshVal(fx.decls, ash, "evargs0"))
+		nv := st.cells[c].arraySet(k, a)
+		so := ash.sorts()
+		for j := range nv.ts {
+			nv.ts[j] = fx.define("evargs", so[j], nv.ts[j])
+		}
+		st.cells[c] = nv
+	}
+	st.cells[evn] = mkInt(intSh, fx.define("evn", sInt, add(k, "1")))
 }
 
 // ---------------------------------------------------------------------------
